@@ -6,6 +6,10 @@ ids = [p['id'] for p in props]
 
 # id -> (level, technique, text, note)
 CLAIMED = {
+ "C26": ("exploration", "privilege-set reference model + canary scan (values unique per table) + unchanged-state check, under random GRANT/REVOKE histories",
+         "Statements of 18 shapes are issued by a non-admin role between random GRANT/REVOKE steps; success without the needed privilege, leaked canaries, data changes by failed statements and denials despite held privileges are violations.",
+         "View access is accepted with SELECT on the view or its base table."),
+
  "C25": ("exploration", "every cache hit is compared with uncached execution at the moment of the hit (twin execution), under random read/write interleavings",
          "The adapter's caching protocol is reproduced and every hit is checked against the current database for query texts and table references chosen to stress key normalisation and dependency extraction.",
          "Protocol reproduced from tests/sqllogictest/db_adapter.rs."),
